@@ -261,6 +261,18 @@ def run_shard(ctx):
         except yp.LoadError:
             ctx.count("doc_rejected_by_loader")
             continue
+        if rng.random() < 0.05:
+            # unjudged "noise" between the judged cases: a document whose keys are Python-equal to other documents'
+            # keys (true / 1 / 1.0, false / 0) is walked first, so that anything the library remembers from one query
+            # to the next (caches keyed by ==) shows in the cases that follow
+            try:
+                noise = yp.load(rng.choice(["{true: a, false: b, 1.0: c}", "{1.0: a, 0.0: b}", "[{true: x}, {false: y}]"]))
+                for sp in (".", "/"):
+                    for _r in Processor(LOG, noise).get_nodes("**" if sp == "." else "/**", mustexist=True):
+                        str(_r.path)
+                ctx.count("noise_walks")
+            except Exception:
+                pass
         vocab = gp.doc_vocab(data)
         pg = gp.PathGen(rng, vocab, keywords=True)
         fp0 = yp.fingerprint(data)
